@@ -9,6 +9,7 @@ EXPLANATION = (
     "chromosome with all indices in range; the drivers query [max(start,0), max(min(end,length),0)) and fill oob after the data, identically for "
     "bigWig and bigBed; per-base routines are NaN-seeded, the bigBed one clamps entries, NaN becomes `missing`; `missing` flows only into output "
     "fills and defaults; every mean division by a covered count is guarded; NaN->0 seeding is confined to the mean in the bigBed zoom routine.")
+EXPLANATION += ' Since the rules were generalised: every flush of a finished bin (in-loop and final, all four routines) is evaluated for min/max/mean on uncovered, partly and fully covered accumulators (covered statistic or `missing`, never 0/0); no bound of the requested range may be cast to an unsigned type; sibling routines spelled differently are reported as undecided rather than compared textually.'
 UNDECIDED = ("the accumulation inside a bin (overlap sizes, per-base depth vectors) is covered by sibling agreement and guards, not by a reference computation; "
              "floating-point rounding of means; the Python layer (argument parsing, numpy views).")
 ASSUMPTIONS = ["f64::min/max ignore a NaN operand", K.A_PRED, "bigWig range queries clip values to the range (C03), bigBed and zoom queries do not"]
